@@ -86,7 +86,7 @@ structure Req where
   combine : Bool
   relabel : Bool
   rescale : Bool
-  skip : Bool
+  skipOverlap : Bool
   dtype : Option DType
   deriving Repr, Inhabited
 
@@ -146,9 +146,14 @@ def combineRow (ty : SegType) (mfv : Nat) (skip : Bool) (d : DType) (npix : Nat)
 def labelRow (d : DType) (npix : Nat) (fs : List SFrame) : List Int :=
   fs.foldl (fun _ f => castFrame d (natFrame f)) (zeros npix)
 
-/-- size of `np.setxor1d(a, b)` -/
+/-- the distinct values of a list (`np.unique` without the sorting, which does not matter for a count) -/
+def uniq : List Nat → List Nat
+  | [] => []
+  | a :: t => if t.contains a then uniq t else a :: uniq t
+
+/-- size of `np.setxor1d(a, b)`: number of distinct values that are in exactly one of the two -/
 def nXor (a b : List Nat) : Nat :=
-  ((a.eraseDups).filter (fun x => !b.contains x)).length + ((b.eraseDups).filter (fun x => !a.contains x)).length
+  ((uniq a).filter (fun x => !b.contains x)).length + ((uniq b).filter (fun x => !a.contains x)).length
 
 def isOneToN (segs : List Nat) : Bool := segs == List.range' 1 segs.length
 
@@ -216,7 +221,7 @@ def stackRead (st : Stored) (rq : Req) (d : DType) (willRescale : Bool) : Except
   if (match remap with | some r => !(decide r.Nodup) | none => false) then .error .other else
   let chan := chanTable rq.segs remap
   if rq.combine then
-    let frames ← rq.keys.mapM fun k => combineRow st.type st.mfv rq.skip interm st.npix (joinRows st.frames chan k)
+    let frames ← rq.keys.mapM fun k => combineRow st.type st.mfv rq.skipOverlap interm st.npix (joinRows st.frames chan k)
     pure (.combined frames)
   else
     let frames := rq.keys.map fun k => stackRow interm st.npix rq.segs.length (joinRows st.frames chan k)
@@ -257,12 +262,67 @@ def missingRefused (st : Stored) (mode : Mode) (keys : List Nat) : Bool :=
   | .maxFrame => keys.any fun k => k > listMax (st.frames.map (·.key))
   | .all => false
 
+/-- by source frame: `Frame numbers are 1-based indices and must be > 0` -/
+def zeroFrameRequested (mode : Mode) (keys : List Nat) : Bool :=
+  match mode with
+  | .maxFrame => keys.any (· == 0)
+  | _ => false
+
 def read (st : Stored) (mode : Mode) (assertMissing : Bool) (rq : Req) : Except ErrKind Out := do
   if rq.segs.isEmpty then .error .value else
   if rq.keys.isEmpty then .error .value else
-  if (match mode with | .maxFrame => rq.keys.any (· == 0) | _ => false) then .error .value else
+  if zeroFrameRequested mode rq.keys then .error .value else
   if !framesUnique st then .error .runtime else
   if !assertMissing && missingRefused st mode rq.keys then .error .key else
   readCore st rq
+
+/-! ### specification-level views of a stored object (used by the theorems, not by the code model) -/
+
+/-- the label plane stored for stack value `k` (all zero when the object has no frame for it) -/
+def rawLabels (st : Stored) (k : Nat) : List Nat :=
+  match (st.frames.filter (fun f => f.key == k)).getLast? with
+  | some f => f.pix
+  | none => List.replicate st.npix 0
+
+/-- the plane stored for segment `s` at stack value `k` (BINARY / FRACTIONAL; all zero when there is no such frame) -/
+def segPlane (st : Stored) (k s : Nat) : List Nat :=
+  match st.frames.find? (fun f => f.key == k && f.seg == s) with
+  | some f => f.pix
+  | none => List.replicate st.npix 0
+
+/-- value a combined result gives to a pixel covered by segment `v`: its own number, or its 1-based position in the
+request under `relabel`; 0 for a segment that was not requested -/
+def outVal (segs : List Nat) (relabel : Bool) (v : Nat) : Int :=
+  if segs.contains v then (if relabel then ((firstIdx segs v + 1 : Nat) : Int) else (v : Int)) else 0
+
+/-- the largest value the requested output can contain (`max_output_val`) -/
+def ceiling (st : Stored) (rq : Req) : Int :=
+  if rq.combine then (if rq.relabel then (rq.segs.length : Int) else (listMax rq.segs : Int))
+  else if st.type == .fractional && !rq.rescale then (st.mfv : Int) else 1
+
+/-- `will_be_rescaled` -/
+def willRescale (st : Stored) (rq : Req) : Bool := rq.rescale && st.type == .fractional && !rq.combine
+
+/-- the output dtype: the caller's, else float32 for a rescaled read, else the smallest unsigned type for `ceiling` -/
+def chosenDtype (st : Stored) (rq : Req) : DType :=
+  match rq.dtype with
+  | some d => d
+  | none => if willRescale st rq then .f32
+            else if ceiling st rq < 256 then .u8 else if ceiling st rq < 65536 then .u16 else .u32
+
+/-- 1-based position of segment `v` in the request, 0 when it was not requested -/
+def posNat (segs : List Nat) (v : Nat) : Nat :=
+  if segs.contains v then firstIdx segs v + 1 else 0
+
+def posVal (segs : List Nat) (v : Nat) : Int := (posNat segs v : Int)
+
+/-- a well-formed label map: 8 or 16 bits, background 0, every stored pixel value is 0 or a described segment
+number, and the described numbers fit the stored bit depth -/
+structure WfLabel (st : Stored) : Prop where
+  type : st.type = .labelmap
+  bits : st.bitsStored = 8 ∨ st.bitsStored = 16
+  bg : st.bg = 0
+  described : ∀ f ∈ st.frames, ∀ p ∈ f.pix, p = 0 ∨ p ∈ st.segNums
+  fit : ∀ s ∈ st.segNums, s < 2 ^ st.bitsStored
 
 end HdVerif.SegRead
